@@ -194,6 +194,29 @@ def merge_sources(doc):
     return found
 
 
+def merge_chains(doc):
+    """Does some hash inherit from a hash that inherits?  (ruamel refreshes
+    inherited copies one level deep only.)"""
+    sources = merge_sources(doc)
+    seen = set()
+
+    def walk(node):
+        if id(node) in seen:
+            return False
+        if isinstance(node, dict):
+            seen.add(id(node))
+            merged = getattr(node, "merge", None) or []
+            if merged and id(node) in sources:
+                return True
+            return any(walk(src) for _p, src in merged) or \
+                any(walk(val) for val in list(node.values()))
+        if isinstance(node, list):
+            seen.add(id(node))
+            return any(walk(val) for val in node)
+        return False
+    return walk(doc)
+
+
 def merged_view(typed):
     """Typed data with every hash's pairs sorted (inheritance order is not
     part of what a reader sees)."""
@@ -780,7 +803,7 @@ class Session:
         # owns (an inherited pair cannot be deleted from the inheriting hash,
         # and deleting the merged hash itself takes its pairs with it)
         merged_ok = self.merged_clean and not self.cli \
-            and "<<" in self.text
+            and "<<" in self.text and not merge_chains(self.doc)
         if merged_ok:
             for pos in positions:
                 try:
@@ -1513,7 +1536,7 @@ def main():
         sys.exit(replay(args.replay, prop))
     tier = driver.tier_from(args.tier)
     seed = driver.seed_from_env()
-    total = args.sessions or (12000 if tier == "quick" else 600000)
+    total = args.sessions or (24000 if tier == "quick" else 600000)
     nshards = 96 if tier == "quick" else 1024
     per = (total + nshards - 1) // nshards
     payloads = [(seed, prop, s, s * per, min(total, (s + 1) * per), tier)
